@@ -71,7 +71,7 @@ def fresh_floor(ip, x_e, name="floor"):
   s = z3.simplify(x_e)
   if z3.is_rational_value(s):
     return z3.IntVal(math.floor(Fraction(s.numerator_as_long(), s.denominator_as_long())))
-  r = ip.fresh(name)
+  r = I.FLR(x_e)
   ip.assume(z3.And(z3.ToReal(r) <= x_e, x_e < z3.ToReal(r) + 1))
   _bridge_log(ip, x_e, r, "floor")
   return r
@@ -83,7 +83,7 @@ def fresh_ceil(ip, x_e, name="ceil"):
   s = z3.simplify(x_e)
   if z3.is_rational_value(s):
     return z3.IntVal(math.ceil(Fraction(s.numerator_as_long(), s.denominator_as_long())))
-  r = ip.fresh(name)
+  r = I.CEL(x_e)
   ip.assume(z3.And(z3.ToReal(r) - 1 < x_e, x_e <= z3.ToReal(r)))
   _bridge_log(ip, x_e, r, "ceil")
   return r
